@@ -182,6 +182,9 @@ func (r *lcRun) exec(f string, i, c int, t *f1testing.T, ownerF string, ownerI i
 				r.event(ownerF, ownerI, kk)
 				r.exec(ownerF, ownerI, kk, t, "", 0)
 			})
+		case "regn":
+			// a cleanup registering another cleanup: its own execution is outside the statement (not logged)
+			t.Cleanup(func() {})
 		case "fail":
 			r.doFail(t)
 		case "failnow":
